@@ -33,6 +33,22 @@ class DatabaseError(Exception):
         self.sql_text = sql_text
 
 
+ROW_LIMIT = 20_000
+
+
+def take_rows(iterable, what=""):
+    """Rows of a result as plain dicts; a result that does not end (a row iterable that feeds on itself, ...) is reported
+    instead of being consumed for ever."""
+    from .base import Violation
+
+    out = []
+    for r in iterable:
+        out.append(dict(r))
+        if len(out) > ROW_LIMIT:
+            raise Violation("runaway-iteration", f"more than {ROW_LIMIT} rows were returned and the result still has not ended {what}")
+    return out
+
+
 class InjectedFault(Exception):
     """Raised by harness payloads / Processor hooks when a fault has been armed (fault-injection steps of C07 / C10)."""
 
@@ -335,7 +351,7 @@ class Env:
         return out
 
     def run_iter(self, rel):
-        return [dict(r) for r in rel.engine.execute(rel)]
+        return take_rows(rel.engine.execute(rel), f"(executing {str(rel)[:200]})")
 
     def close(self):
         from . import expr as _expr
